@@ -37,7 +37,9 @@
 #define C10_HDR sizeof(size_t)
 #define C10_MINLIVE (C10_HDR + sizeof(void *)) /* smallest chunk: header + room for the free-list link */
 
-char c10_arena[C10_ARENA] __attribute__((aligned(16)));
+/* the arena is an array of words (every access of the code is word-sized and word-aligned); the code sees
+ * it as bytes through the glue macro c10_arena == (char *)c10_arena_w */
+size_t c10_arena_w[C10_ARENA / sizeof(size_t)];
 
 static uint c10_nf;                       /* pre-state: number of free chunks          */
 static size_t c10_fo[C10_NCHUNK + 2];     /* offsets of their headers, ascending        */
@@ -84,7 +86,7 @@ static inline int c10_block_ok(size_t o, size_t s, uint nf, const size_t *fo, co
 /* generate the pre-state: assumptions are exactly H1-H5 */
 #define C10_HEAP_STATE(nf_, foarr, fsarr, brk_, fresh_, hasL_, Lo_, Ls_, nlive_)                                         \
     do {                                                                                                                 \
-        __CPROVER_havoc_object(c10_arena);                                                                               \
+        __CPROVER_havoc_object(c10_arena_w);                                                                              \
         c10_nf = (nf_); c10_brk = (brk_); c10_hasL = (hasL_) != 0; c10_Lo = (Lo_); c10_Ls = (Ls_); c10_nlive = (nlive_);  \
         __CPROVER_assume(c10_nf <= C10_NCHUNK);                                                                          \
         for (uint c10_i = 0; c10_i < C10_NCHUNK; c10_i++) { c10_fo[c10_i] = (foarr)[c10_i]; c10_fs[c10_i] = (fsarr)[c10_i]; } \
